@@ -36,6 +36,10 @@ CHECKS = {
    technique="symbolic execution (z3-backed bytes) of disassembler.__call__ over the real decision tree with recorder hooks; per path SMT proof that the specs tried equal the mask-matching specs of the flat most-constrained-first list, in its order; concrete structural invariant of every tree node",
    text="Bounded model checking of the index: for every importable cpu module / decode mode and each listed input length, all paths of the tree walk + leaf scan + prefix recursion over ALL byte strings of that length are explored (caps and deadlines reported); on each path the set and order of candidate specs is proven equal to the reference scan's (reject-all mode) and the winner equal to the first match (accept mode). One model per path is replayed through the real disassembler with the real hooks against a linear ispec.decode scan.",
    note="trusted: z3, symx + SymDict lookup model, the argument that equal candidate sequences imply equal outcomes (rests on C03); known finding: ARMv7 Thumb with big-endian fetch"),
+ "C05": dict(level="model_checking", engine="E2", design="DESIGN.md section 4 C05",
+   technique="symbolic execution (z3-backed bytes) of cpu.disassemble with the real hooks at several fetch-window sizes; per path SMT proofs that the instruction bytes are the leading input bytes and, by partition refinement between the path sets of two windows, that the instruction (mnemonic, length, operands with symbolic immediates) is the same function of the consumed bytes",
+   text="Bounded model checking per spec: path sets at windows maxlen, maxlen+2 and the observed consumed lengths; each instruction path is proven to consume a prefix of its input, to mention only consumed bytes, and to yield the same instruction from every other window that shares an input with it (skeleton equality + solver equality of every symbolic field). Counterexamples are replayed with the real decoder on the truncated / extended inputs.",
+   note="trusted: z3, symx proxies (concolic replay of path models through the real decoder), SymDict tree lookup; register selectors realized under a cap of 2 values per site (capped sites counted); quick covers 1/40 of the specs per cpu"),
 }
 
 NA_REASON = "check not built yet (construction in progress)"
